@@ -226,6 +226,7 @@ pub fn run(args: &[String]) {
     probes.push("<table><tbody><tr><td>one </td></tr><style>two</style></tbody></table>three".into());
     probes.push("<table><template><td>x</td></template></table>".into());
     // a newline right after the start tag of pre is dropped by the parser: one that is part of the text must be written twice
+    probes.push("<font color=\"#ff0000\" data-mx-color=\"#00ff00\">x</font>".into());
     probes.push("<pre>\n\n\nfn main() {}\n</pre>".into());
     probes.push("<pre><x-foo></x-foo>\nx</pre><p>\nkept</p>".into());
     probes.push("<pre><code class=\"language-rust\">\n\nx</code></pre>".into());
